@@ -281,7 +281,7 @@ def rule_N4(ctx):
                 elif isinstance(base, ast.Name) and base.id in m.modglobals[f.mod] and base.id not in fa.final_env:
                     writes.append((x, 'write into a module-level container'))
         for x, what in writes:
-            if root.key in GLOBAL_WRITERS:
+            if ctx.rk(root.key) in GLOBAL_WRITERS:
                 r.ok(f"{f.key}:{norm(x)}", reason=True)
             else:
                 r.fail(f.key, x, f"{what} in a library function that is not one of the option/registry setters: the "
